@@ -75,3 +75,85 @@ theorem slope_gradient_zero_is_not_convergence :
   · norm_num
   · rw [gdStep_eq]
     norm_num
+
+/-- the two gradient sums are affine in the weights -/
+theorem grad_sums_affine (x y : List K) (hxy : x.length = y.length) (w : K × K) :
+    ((x.zip y).map fun p => w.1 + w.2 * p.1 - p.2).sum
+        = (y.length : K) * w.1 + w.2 * x.sum - y.sum ∧
+    ((x.zip y).map fun p => (w.1 + w.2 * p.1 - p.2) * p.1).sum
+        = w.1 * x.sum + w.2 * (x.map fun xi => xi ^ 2).sum - ((x.zip y).map fun p => p.2 * p.1).sum := by
+  have hx : ((x.zip y).map fun p => p.1).sum = x.sum := by
+    have := map_zip_fst x y (fun t => t) (le_of_eq hxy)
+    simp only [List.map_id'] at this
+    rw [this]
+  have hy : ((x.zip y).map fun p => p.2).sum = y.sum := by
+    have := map_zip_snd x y (fun t => t) (le_of_eq hxy.symm)
+    simp only [List.map_id'] at this
+    rw [this]
+  have hxx : ((x.zip y).map fun p => p.1 ^ 2).sum = (x.map fun xi => xi ^ 2).sum := by
+    rw [map_zip_fst x y (fun t => t ^ 2) (le_of_eq hxy)]
+  have hlen : ((x.zip y).length : K) = (y.length : K) := by
+    rw [List.length_zip, hxy, min_self]
+  constructor
+  · have e : ((x.zip y).map fun p => w.1 + w.2 * p.1 - p.2)
+        = (x.zip y).map fun p => (w.1 + w.2 * p.1) - p.2 := rfl
+    rw [e, sum_map_sub, sum_map_add', sum_map_const, hlen,
+      sum_map_mul_left' (x.zip y) (fun p => p.1) w.2, hx, hy]
+  · have e : ((x.zip y).map fun p => (w.1 + w.2 * p.1 - p.2) * p.1)
+        = (x.zip y).map fun p => (w.1 * p.1 + w.2 * p.1 ^ 2) - p.2 * p.1 := by
+      apply List.map_congr_left; intro p _; ring
+    rw [e, sum_map_sub, sum_map_add',
+      sum_map_mul_left' (x.zip y) (fun p => p.1) w.1,
+      sum_map_mul_left' (x.zip y) (fun p => p.1 ^ 2) w.2, hx, hxx]
+
+/-- **resonance**: if `α · mean(x²) = 1`, then after the first pass from the code's starting point `(mean y, 0)` the
+intercept has not moved, the slope's gradient sum is exactly 0 — for every data set — and the intercept's gradient sum
+on that second pass is `slope₁ · Σx`, which is not 0 unless the data are centred or uncorrelated.  An exit test on the
+slope's gradient alone therefore stops here, one pass after the start, wherever the optimum is. -/
+theorem gd_resonant_second_pass (α : K) (x y : List K) (hxy : x.length = y.length) (hn : y.length ≠ 0)
+    (hres : α * ((x.map fun xi => xi ^ 2).sum / (y.length : K)) = 1) :
+    (gdStep α x y (y.sum / (y.length : K), 0)).1 = y.sum / (y.length : K) ∧
+    ((x.zip y).map fun p => ((gdStep α x y (y.sum / (y.length : K), 0)).1
+        + (gdStep α x y (y.sum / (y.length : K), 0)).2 * p.1 - p.2) * p.1).sum = 0 ∧
+    ((x.zip y).map fun p => (gdStep α x y (y.sum / (y.length : K), 0)).1
+        + (gdStep α x y (y.sum / (y.length : K), 0)).2 * p.1 - p.2).sum
+      = (gdStep α x y (y.sum / (y.length : K), 0)).2 * x.sum := by
+  have hnK : (y.length : K) ≠ 0 := Nat.cast_ne_zero.mpr hn
+  obtain ⟨g0, g1⟩ := grad_sums_affine x y hxy (y.sum / (y.length : K), 0)
+  simp only at g0 g1
+  have hw1 : gdStep α x y (y.sum / (y.length : K), 0)
+      = (y.sum / (y.length : K),
+         -(α * ((y.sum / (y.length : K) * x.sum - ((x.zip y).map fun p => p.2 * p.1).sum) / (y.length : K)))) := by
+    rw [gdStep_eq]
+    simp only
+    rw [g0, g1, Prod.mk.injEq]
+    constructor
+    · field_simp
+      ring
+    · ring
+  obtain ⟨a0, a1⟩ := grad_sums_affine x y hxy (gdStep α x y (y.sum / (y.length : K), 0))
+  have hres' : α * (x.map fun xi => xi ^ 2).sum = (y.length : K) := by
+    have := hres
+    field_simp at this
+    linarith
+  refine ⟨by rw [hw1], ?_, ?_⟩
+  · rw [a1, hw1]
+    simp only
+    have : -(α * ((y.sum / (y.length : K) * x.sum - ((x.zip y).map fun p => p.2 * p.1).sum) / (y.length : K)))
+          * (x.map fun xi => xi ^ 2).sum
+        = -((y.sum / (y.length : K) * x.sum - ((x.zip y).map fun p => p.2 * p.1).sum) / (y.length : K))
+            * (α * (x.map fun xi => xi ^ 2).sum) := by ring
+    rw [this, hres']
+    field_simp
+    ring
+  · rw [a0, hw1]
+    simp only
+    field_simp
+    ring
+
+/-- the resonance hypothesis is satisfiable with a stable step and un-centred data: `x = [4,3,2,1,1,1,0,0]`
+(`mean x² = 4`, `α = 1/4`, `Σx = 12`) — the data of the seeded change's demonstration -/
+example : (1 / 4 : ℚ) * ((([4, 3, 2, 1, 1, 1, 0, 0] : List ℚ).map fun xi => xi ^ 2).sum / ((8 : ℕ) : ℚ)) = 1 := by
+  norm_num
+
+end SV.Props.C15Stationary
